@@ -266,7 +266,7 @@ func TestC18(t *testing.T) {
 		}
 		wantPRK := refnacl.HKDFExtract(hs.newH, secret, salt)
 		var prk []byte
-		if err := catch(func() { prk = hkdf.Extract(hs.newH, append([]byte{}, secret...), append([]byte(nil), salt...)) }); err != nil {
+		if err := catch(func() { prk = hkdf.Extract(hs.newH, append([]byte{}, secret...), clone(salt)) }); err != nil {
 			rt.Fatalf("VF-VIOLATION: property=C18 hkdf.Extract(%s, |IKM|=%d, %s): %v", hs.name, len(secret), saltClass, err)
 		}
 		if !bytes.Equal(prk, wantPRK) {
@@ -275,17 +275,10 @@ func TestC18(t *testing.T) {
 		var r io.Reader
 		ctor := rapid.SampledFrom([]string{"New", "Expand", "Expand(arbitrary key)"}).Draw(rt, "ctor")
 		key := wantPRK
-		infoArg := append([]byte(nil), info...)
-		if info == nil {
-			infoArg = nil
-		}
+		infoArg := clone(info)
 		switch ctor {
 		case "New":
-			saltArg := append([]byte(nil), salt...)
-			if salt == nil {
-				saltArg = nil
-			}
-			r = hkdf.New(hs.newH, append([]byte{}, secret...), saltArg, infoArg)
+			r = hkdf.New(hs.newH, append([]byte{}, secret...), clone(salt), infoArg)
 		case "Expand":
 			r = hkdf.Expand(hs.newH, append([]byte{}, wantPRK...), infoArg)
 		default:
